@@ -7,16 +7,16 @@ package checks
 //
 // Part A: every sequence of <=4 (quick) / <=5 (thorough; plus length 6 over a
 // 4-batch sub-menu) batches of a 6-batch menu, committed at increasing heights,
-// x address/key pools of 1, 2 and 300 distinct values x a store restart at
+// x address/key pools of 1 (quick: length<=3), 2 and 300 distinct values x a store restart at
 // every subset of the batch boundaries (x which call comes first on the new
-// store object: LoadEvents, or - pool 2 in quick, every pool in thorough - the
-// CommitEvents of the next batch). Every committed height is loaded and
+// store object: LoadEvents, or - pool 2 and length<=3 in quick, always in
+// thorough - the CommitEvents of the next batch). Every committed height is loaded and
 // compared with the model, field by field, at the end of every scenario; the
 // scenario set is prefix closed, so this covers every commit point (see
 // lattice/events.RunA).
 //
 // Part B: 65 534 ... 65 540 distinct validator keys and 70 000 distinct
-// addresses (quick: 70 000 in the 65 534-key runs, about 39 000 in the others)
+// addresses (quick: 70 000 in the 65 534-key run, about 37 000 in the others)
 // over four heights; restart policy "last" (no restart until all
 // four heights are committed and verified, then one restart and everything is
 // verified again), "every" (restart after every commit) and, thorough only,
@@ -133,15 +133,18 @@ func c24Seq(n, idx, m int) []int {
 var c24Pools = []int{1, 2, 300}
 
 // c24Scenarios calls f for every scenario of one sequence, in a fixed order.
-func c24Scenarios(seq []int, modeC map[int]bool, f func(sub int, sc lev.ScenarioA)) {
+func c24Scenarios(seq []int, modeC map[int]bool, modeCMaxLen, pool1MaxLen int, f func(sub int, sc lev.ScenarioA)) {
 	n := len(seq)
 	sub := 0
 	for _, pool := range c24Pools {
+		if pool == 1 && n > pool1MaxLen {
+			continue // with one address and one key nothing new is registered after the first batch
+		}
 		for mask := uint(0); mask < 1<<uint(n); mask++ {
 			f(sub, lev.ScenarioA{Seq: seq, Pool: pool, Mask: mask, Mode: "L"})
 			sub++
 			// mode C differs from mode L only when a restart is followed by another batch
-			if modeC[pool] && mask&((1<<uint(n-1))-1) != 0 {
+			if modeC[pool] && n <= modeCMaxLen && mask&((1<<uint(n-1))-1) != 0 {
 				f(sub, lev.ScenarioA{Seq: seq, Pool: pool, Mask: mask, Mode: "C"})
 				sub++
 			}
@@ -194,8 +197,8 @@ func init() {
 }
 
 func runC24(c *Ctx) {
-	// the run allocates and drops gigabytes of decoder garbage; with the binary's GC percent of 800 every
-	// allocation lands on never-touched pages (page faults dominate), so collect at the usual pace here
+	// the run allocates and drops gigabytes of decoder garbage; with the binary's GC percent of 800 most
+	// allocations land on never-touched pages and page faults dominate the run time, so collect early here
 	gcp := 50
 	if v, err := strconv.Atoi(os.Getenv("VERIF_C24_GC")); err == nil {
 		gcp = v
@@ -205,8 +208,11 @@ func runC24(c *Ctx) {
 	maxLen := 4                    // full menu up to this length
 	var subMenu []int              // thorough: sequences of length maxLen+1 over this sub-menu
 	modeC := map[int]bool{2: true} // pools for which "CommitEvents first on the new store" is enumerated too
+	modeCMaxLen := 3               // mode C up to this sequence length
+	pool1MaxLen := 3               // pool class 1 up to this sequence length
 	restartsB := []string{"every", "last"}
 	if !c.Quick() {
+		modeCMaxLen, pool1MaxLen = 6, 6
 		maxLen = 5
 		subMenu = []int{0, 2, 3, 5}
 		modeC = map[int]bool{1: true, 2: true, 300: true}
@@ -223,12 +229,12 @@ func runC24(c *Ctx) {
 	for _, rs := range restartsB {
 		for k := 65534; k <= 65540; k++ {
 			// policy "last" contains the restart-free run (everything it verifies before its one restart);
-			// quick adds restarts after every commit for the last good and the second wrapped key count only
-			if c.Quick() && rs == "every" && k != 65534 && k != 65537 {
+			// quick adds the policy with a restart after every commit for one key count only
+			if c.Quick() && rs == "every" && k != 65537 {
 				continue
 			}
 			// quick: the address table (32-bit ids, independent of the key count) is taken past 65 536 entries in
-			// one run per policy; the other runs use the addresses their key events need (about 39 000)
+			// the 65 534-key run only; the other runs use the addresses their key events need (about 37 000)
 			na := addrsB
 			if c.Quick() && k != 65534 {
 				na = 0
@@ -299,7 +305,7 @@ func runC24(c *Ctx) {
 				ui := nB + (i-nB+rot)%(len(units)-nB)
 				u := units[ui]
 				seq := u.seq
-				c24Scenarios(seq, modeC, func(sub int, sc lev.ScenarioA) {
+				c24Scenarios(seq, modeC, modeCMaxLen, pool1MaxLen, func(sub int, sc lev.ScenarioA) {
 					res := lev.RunA(sc, len(seq) <= 3)
 					a := aggA[w]
 					s := sc
@@ -378,7 +384,7 @@ func runC24(c *Ctx) {
 	cv["part_b_finished_after_s"] = time.Unix(0, lastB).Sub(c.Start).Seconds()
 	cv["exhaustive"] = skipped == 0
 	cv["samples"] = samples
-	modeCPools := "pool class 2"
+	modeCPools := "pool class 2 and sequences of length<=3"
 	if !c.Quick() {
 		modeCPools = "every pool class"
 	}
@@ -386,7 +392,7 @@ func runC24(c *Ctx) {
 	if len(subMenu) > 0 {
 		extra = fmt.Sprintf(" plus every sequence of %d batches over the sub-menu %v,", maxLen+1, subMenu)
 	}
-	cv["rule"] = fmt.Sprintf("part A: every sequence of 1..%d batches out of a menu of %d batches (all 12 event types; empty batch; identical events; nil and set optional key; amounts 0, 1, 40 digits; coin ids 0, 1, 2^32-1),%s committed at heights 3, 255, 256, 65536, 16777216, 4294967295, x pool class (1, 2, 300 distinct addresses and keys; class 300 starts from a database primed with elements 0..297 - a 298-event height and an 8-event sentinel height on the ids around 255/256 - elements 298 and 299 are first seen inside the scenario) x every subset of the batch boundaries at which the store object is replaced by a new one over the same database x mode (L: LoadEvents is the first call on a new object; C, for %s: the CommitEvents of the next batch is). Right after a commit (and after the restart following it, mode L) the height just committed is loaded and compared with the specs added, field by field; after the last commit and again after the restart following it EVERY committed height is (class 300: including the sentinel height, and the 298-event height for sequences of length<=3), and a never-committed height must load nothing. The scenario set is prefix closed with identical call histories, so every commit point of every scenario has all its heights verified in the scenario ending there. part B: one run per (number of distinct keys 65534..65540, restart policy); the height just committed is verified after each of the first three commits (and after the restart following it), all four heights after the last commit (and after the restart following it). A scenario is counted in distinct_nontrivial when at least one restart happened in it AND at least one non-empty batch committed inside the scenario was afterwards loaded by a later store object than the one that committed it (scenarios are distinct tuples by construction; priming batches do not count). evaluations = scenarios executed + (height, store) comparisons made.", maxLen, menu, extra, modeCPools)
+	cv["rule"] = fmt.Sprintf("part A: every sequence of 1..%d batches out of a menu of %d batches (all 12 event types; empty batch; identical events; nil and set optional key; amounts 0, 1, 40 digits; coin ids 0, 1, 2^32-1),%s committed at heights 3, 255, 256, 65536, 16777216, 4294967295, x pool class (1 - for sequences of length<=%d -, 2, 300 distinct addresses and keys; class 300 starts from a database primed with elements 0..297 - a 298-event height and an 8-event sentinel height on the ids around 255/256 - elements 298 and 299 are first seen inside the scenario) x every subset of the batch boundaries at which the store object is replaced by a new one over the same database x mode (L: LoadEvents is the first call on a new object; C, for %s: the CommitEvents of the next batch is). Right after a commit (and after the restart following it, mode L) the height just committed is loaded and compared with the specs added, field by field; after the last commit and again after the restart following it EVERY committed height is (class 300: including the sentinel height, and the 298-event height for sequences of length<=3), and a never-committed height must load nothing. The scenario set is prefix closed with identical call histories, so every commit point of every scenario has all its heights verified in the scenario ending there. part B: one run per (number of distinct keys 65534..65540, restart policy); the height just committed is verified after each of the first three commits (and after the restart following it), all four heights after the last commit (and after the restart following it). A scenario is counted in distinct_nontrivial when at least one restart happened in it AND at least one non-empty batch committed inside the scenario was afterwards loaded by a later store object than the one that committed it (scenarios are distinct tuples by construction; priming batches do not count). evaluations = scenarios executed + (height, store) comparisons made.", maxLen, menu, extra, pool1MaxLen, modeCPools)
 	c.Ev.Assumptions = append(c.Ev.Assumptions,
 		"tm-db MemDB (wrapped by verif/vdb) stands for the LevelDB the node uses for events; only Get/Set are used by the store",
 		"a restart is modelled as a new NewEventsStore object over the same database (all writes of the store are synchronous Set calls, none is buffered in the object)",
